@@ -164,6 +164,19 @@ fn ranks_of(arr: &ArrayRef) -> Vec<Option<i128>> {
     }
 }
 
+/// (index number, column, covered fragments, is a bitmap index)
+#[derive(Clone, Debug)]
+pub struct Ix {
+    pub n: u64,
+    pub col: u64,
+    pub frags: Vec<u64>,
+    pub bitmap: bool,
+}
+pub fn ixs_coq(ixs: &[Ix]) -> String {
+    coq::list(ixs.iter().map(|x| format!("({}, ({}, {}, {}))", x.n, x.col, coq::nlist(x.frags.iter()), coq::b(x.bitmap))))
+}
+pub const IXS_TY: &str = "list (N * (N * list N * bool))";
+
 pub struct Table {
     pub ds: Dataset,
     pub cols: Vec<ColSpec>,
@@ -205,6 +218,36 @@ fn gen_batch(rng: &mut Rng, cols: &[ColSpec], schema: &Arc<Schema>, n: usize, ne
 
 fn es<E: std::fmt::Display>(e: E) -> String {
     e.to_string()
+}
+
+pub fn panic_text(e: tokio::task::JoinError) -> String {
+    if e.is_panic() {
+        let p = e.into_panic();
+        if let Some(s) = p.downcast_ref::<&str>() {
+            s.to_string()
+        } else if let Some(s) = p.downcast_ref::<String>() {
+            s.clone()
+        } else {
+            "?".into()
+        }
+    } else {
+        "cancelled".into()
+    }
+}
+
+async fn ids_inner(ds: &Dataset, filter: &str, use_index: bool) -> Result<Vec<u64>, String> {
+    let mut sc = ds.scan();
+    sc.filter(filter).map_err(|e| format!("filter: {e}"))?;
+    sc.use_scalar_index(use_index);
+    sc.project(&["id"]).map_err(es)?;
+    let batches: Vec<RecordBatch> = sc.try_into_stream().await.map_err(es)?.try_collect().await.map_err(es)?;
+    let mut out = vec![];
+    for b in batches {
+        let a = b.column_by_name("id").unwrap().as_primitive::<Int64Type>();
+        out.extend(a.values().iter().map(|v| *v as u64));
+    }
+    out.sort();
+    Ok(out)
 }
 
 impl Table {
@@ -321,22 +364,17 @@ impl Table {
     }
 
     pub async fn ids(&self, filter: &str, use_index: bool) -> Result<Vec<u64>, String> {
-        let mut sc = self.ds.scan();
-        sc.filter(filter).map_err(|e| format!("filter: {e}"))?;
-        sc.use_scalar_index(use_index);
-        sc.project(&["id"]).map_err(es)?;
-        let batches: Vec<RecordBatch> = sc.try_into_stream().await.map_err(es)?.try_collect().await.map_err(es)?;
-        let mut out = vec![];
-        for b in batches {
-            let a = b.column_by_name("id").unwrap().as_primitive::<Int64Type>();
-            out.extend(a.values().iter().map(|v| *v as u64));
+        let ds = self.ds.clone();
+        let f = filter.to_string();
+        // the scan runs in its own task: a panic inside the index search must not take the harness down
+        match tokio::spawn(async move { ids_inner(&ds, &f, use_index).await }).await {
+            Ok(r) => r,
+            Err(e) => Err(format!("PANIC {}", panic_text(e))),
         }
-        out.sort();
-        Ok(out)
     }
 
     /// the model's view of the index configuration: Info, and (index number, column, covered fragments)
-    pub async fn model_indices(&self) -> Result<(Info, Vec<(u64, u64, Vec<u64>)>, Vec<String>), String> {
+    pub async fn model_indices(&self) -> Result<(Info, Vec<Ix>, Vec<String>), String> {
         let indices = self.ds.load_indices().await.map_err(es)?;
         let live: Vec<u32> = self.ds.get_fragments().iter().map(|f| f.id() as u32).collect();
         let mut names: Vec<String> = vec![];
@@ -370,7 +408,7 @@ impl Table {
                 Some(e) => e.2.push((n, parser)),
                 None => info.push((ci as u64, self.cols[ci].ty == DataType::Boolean, vec![(n, parser)])),
             }
-            ixs.push((n, ci as u64, bm.iter().map(|f| f as u64).collect()));
+            ixs.push(Ix { n, col: ci as u64, frags: bm.iter().map(|f| f as u64).collect(), bitmap: kind == IndexType::Bitmap });
         }
         Ok((info, ixs, names))
     }
@@ -451,9 +489,9 @@ pub struct Streams {
 }
 impl Streams {
     pub fn new() -> Self {
-        let mut scan = Stream::new("scan", unit::REQ, "chk_scan", &format!("{} * list (N * (N * list N)) * list (N * N * list (option Z)) * sexpr", INFO_TY), "outcome (list N)");
+        let mut scan = Stream::new("scan", unit::REQ, "chk_scan", &format!("{} * {} * list (N * N * list (option Z)) * sexpr", INFO_TY, IXS_TY), "outcome (list N)");
         scan.shard = 60;
-        let mut class = Stream::new("class", unit::REQ, "chk_class", &format!("{} * list (N * N * list (option Z)) * sexpr", INFO_TY), "bool * bool");
+        let mut class = Stream::new("class", unit::REQ, "chk_class", &format!("{} * {} * list (N * N * list (option Z)) * sexpr", INFO_TY, IXS_TY), "bool * bool * bool");
         class.shard = 80;
         let mut translate = Stream::new("translate_e2e", unit::REQ, "chk_translate", &format!("{} * sexpr", INFO_TY), "outcome (option sidx * option sexpr)");
         translate.shard = 150;
@@ -462,7 +500,7 @@ impl Streams {
 }
 
 /// One predicate on one table state: oracle + model streams.  `fixed` marks corpus cases.
-pub async fn check_pred(t: &Table, sql: &str, rows: &[(u64, u64, Row)], info: &Info, ixs: &[(u64, u64, Vec<u64>)], names: &[String], st: &mut Streams, sink: &mut Sink, tag: &str) {
+pub async fn check_pred(t: &Table, sql: &str, rows: &[(u64, u64, Row)], info: &Info, ixs: &[Ix], names: &[String], st: &mut Streams, sink: &mut Sink, tag: &str) {
     let with = t.ids(sql, true).await;
     let without = t.ids(sql, false).await;
     let case = |extra: Value| -> Value {
@@ -478,11 +516,19 @@ pub async fn check_pred(t: &Table, sql: &str, rows: &[(u64, u64, Row)], info: &I
         Some(a) => (known_not_over_nullable(info, &model_rows, a), known_range_swapped(info, &model_rows, a)),
         None => (false, false),
     };
+    // the real translation (with the table's real index information): class 3 looks at its leaves
+    let real_info = t.ds.scalar_index_info().await.ok();
+    let nm = |n: &str| names.iter().position(|x| x == n).map(|i| i as u64).unwrap_or(9999);
+    let real_sq: Option<SIdx> = match (&optimized, &real_info) {
+        (Some(e), Some(ri)) => lance_index::scalar::expression::apply_scalar_indices(e.clone(), ri).ok().and_then(|ie| ie.scalar_query.map(|q| sidx_of(&q, &mut ctx, &nm))),
+        _ => None,
+    };
+    let k3 = real_sq.as_ref().map(|q| has_bitmap_inverted(q, &|i| ixs.iter().any(|x| x.n == i && x.bitmap))).unwrap_or(false);
     match (&with, &without) {
         (Ok(a), Ok(b)) => {
             if a == b {
                 sink.oracle_ok();
-                sink.count(if k1 || k2 { "e2e:equal-though-in-class" } else { "e2e:equal" });
+                sink.count(if k1 || k2 || k3 { "e2e:equal-though-in-class" } else { "e2e:equal" });
             } else {
                 let class = if k1 { Some("not_over_nullable") } else if k2 { Some("range_bounds_swapped") } else { None };
                 sink.count(match class {
@@ -495,7 +541,11 @@ pub async fn check_pred(t: &Table, sql: &str, rows: &[(u64, u64, Row)], info: &I
                 sink.oracle_fail(class, "scan with use_scalar_index(true) returns other rows than with (false)", case(json!({"only_with_index": only_i, "only_without_index": only_s, "optimized": optimized.as_ref().map(|e| e.to_string())})));
             }
         }
-        (Err(a), Err(_)) => {
+        (Err(a), Ok(_)) if a.starts_with("PANIC") && k3 => {
+            sink.count("e2e:DIFF-class-bitmap_inverted_range");
+            sink.oracle_fail(Some("bitmap_inverted_range"), "the indexed scan panics, the plain scan answers", case(json!({"with_index": a.chars().take(200).collect::<String>(), "optimized": optimized.as_ref().map(|e| e.to_string())})));
+        }
+        (Err(a), Err(b)) if a.starts_with("PANIC") == b.starts_with("PANIC") => {
             sink.oracle_ok();
             sink.count("e2e:both-err");
             sink.notes.push(format!("both paths refuse `{}`: {}", sql.chars().take(60).collect::<String>(), a.chars().take(100).collect::<String>()));
@@ -511,19 +561,23 @@ pub async fn check_pred(t: &Table, sql: &str, rows: &[(u64, u64, Row)], info: &I
     sink.nontrivial(&format!("{}|{}", sql, t.hist.len()));
     // class stream: the Rust mirror of the class predicates against the Coq definitions
     let rows_c = rows_coq(rows);
-    st.class.push(format!("({}, {}, {})", info_coq(info), rows_c, ast.coq()), format!("({}, {})", coq::b(k1), coq::b(k2)), case(json!({"known": [k1, k2]})));
+    let ixs_c = ixs_coq(ixs);
+    st.class.push(format!("({}, {}, {}, {})", info_coq(info), ixs_c, rows_c, ast.coq()), format!("({}, {}, {})", coq::b(k1), coq::b(k2), coq::b(k3)), case(json!({"known": [k1, k2, k3]})));
     // translate stream: the real translator with the table's real index information
-    if let Ok(real_info) = t.ds.scalar_index_info().await {
+    if let Some(real_info) = &real_info {
         let cols: Vec<(String, DataType)> = t.cols.iter().map(|c| (c.name.clone(), c.ty.clone())).collect();
-        let nm = |n: &str| names.iter().position(|x| x == n).map(|i| i as u64).unwrap_or(9999);
-        unit::push_case(&mut st.translate, sink, &cols, info, &real_info, &nm, &optimized, tag);
+        unit::push_case(&mut st.translate, sink, &cols, info, real_info, &nm, &optimized, tag);
     }
     // scan stream: the model's indexed scan, in-class cases included
     if ast.is_plain() && ast.depth() < 40 {
-        if let Ok(a) = &with {
-            let ixs_c = coq::list(ixs.iter().map(|(n, c, fr)| format!("({n}, ({c}, {}))", coq::nlist(fr.iter()))));
-            st.scan.push(format!("({}, {}, {}, {})", info_coq(info), ixs_c, rows_c, ast.coq()), format!("(Ok {})", coq::nlist(a.iter())), case(json!({"rows_with_index": a, "known": [k1, k2]})));
-            sink.count(if k1 || k2 { "scan:in-class" } else { "scan:outside" });
+        let out = match &with {
+            Ok(a) => Some(format!("(Ok {})", coq::nlist(a.iter()))),
+            Err(e) if e.starts_with("PANIC") => Some("Panic".to_string()),
+            Err(_) => None,
+        };
+        if let Some(out) = out {
+            st.scan.push(format!("({}, {}, {}, {})", info_coq(info), ixs_c, rows_c, ast.coq()), out, case(json!({"rows_with_index": format!("{with:?}").chars().take(300).collect::<String>(), "known": [k1, k2, k3]})));
+            sink.count(if k1 || k2 || k3 { "scan:in-class" } else { "scan:outside" });
         }
     }
 }
@@ -534,6 +588,7 @@ pub async fn corpus(st: &mut Streams, sink: &mut Sink) -> Result<(), String> {
         ColSpec { name: "id".into(), ty: DataType::Int64, nullable: false, indices: vec![] },
         ColSpec { name: "x".into(), ty: DataType::Int32, nullable: true, indices: vec![("x_ix".into(), IndexType::BTree)] },
         ColSpec { name: "b".into(), ty: DataType::Boolean, nullable: true, indices: vec![("b_ix".into(), IndexType::Bitmap)] },
+        ColSpec { name: "y".into(), ty: DataType::Int32, nullable: true, indices: vec![("y_ix".into(), IndexType::Bitmap)] },
     ];
     let schema = Arc::new(Schema::new(cols.iter().map(|c| Field::new(&c.name, c.ty.clone(), c.nullable)).collect::<Vec<_>>()));
     let batch = RecordBatch::try_new(
@@ -542,6 +597,7 @@ pub async fn corpus(st: &mut Streams, sink: &mut Sink) -> Result<(), String> {
             Arc::new(Int64Array::from(vec![0, 1, 2, 3, 4, 5])),
             Arc::new(Int32Array::from(vec![Some(1), Some(5), None, Some(7), None, Some(5)])),
             Arc::new(BooleanArray::from(vec![Some(true), Some(false), None, Some(true), None, Some(false)])),
+            Arc::new(Int32Array::from(vec![Some(1), Some(5), None, Some(7), None, Some(5)])),
         ],
     )
     .unwrap();
@@ -551,11 +607,13 @@ pub async fn corpus(st: &mut Streams, sink: &mut Sink) -> Result<(), String> {
     let mut t = Table { ds, cols, schema, next_id: 6, hist: vec!["corpus: x = [1,5,NULL,7,NULL,5], b = [t,f,NULL,t,NULL,f]".into()], _dir: dir };
     t.ds.create_index(&["x"], IndexType::BTree, Some("x_ix".into()), &ScalarIndexParams::default(), true).await.map_err(es)?;
     t.ds.create_index(&["b"], IndexType::Bitmap, Some("b_ix".into()), &ScalarIndexParams::default(), true).await.map_err(es)?;
+    t.ds.create_index(&["y"], IndexType::Bitmap, Some("y_ix".into()), &ScalarIndexParams::default(), true).await.map_err(es)?;
     let rows = t.rows().await?;
     let (info, ixs, names) = t.model_indices().await?;
     for p in [
         "x != 5", "NOT (x = 5)", "x NOT IN (5)", "NOT (x = 5 OR x = 1)", "x = 5 OR NOT (x = 5)", "b = false", "NOT b", "b <> true", "x IS NOT NULL", "NOT (b IS TRUE)",
         "x <= 5 AND x > 1", "x < 5 AND x >= 1", "x > 1 AND x <= 5", "x >= 1 AND x < 5", "x < 5 AND x > 1", "x <= 5 AND x >= 1", "x NOT BETWEEN 2 AND 6", "x BETWEEN 1 AND 5",
+        "x >= 7 AND x <= 1", "x BETWEEN 7 AND 1", "x > 5 AND x < 5", "y >= 7 AND y <= 1", "y BETWEEN 7 AND 1", "y > 5 AND y < 5", "y >= 5 AND y < 5", "y != 5", "y <= 5 AND y > 1",
     ] {
         check_pred(&t, p, &rows, &info, &ixs, &names, st, sink, "corpus").await;
     }
@@ -602,7 +660,8 @@ pub async fn run(args: &Args, sink: &mut Sink, rng: &mut Rng, kinds: &[IndexType
             let Ok((info, ixs, names)) = t.model_indices().await else { continue };
             let k = if s == nsteps { npreds } else { npreds / 3 };
             for _ in 0..k {
-                let p = gen_pred(rng, &t.cols, rng.below(3) as u32);
+                let dp = rng.below(3) as u32;
+                let p = gen_pred(rng, &t.cols, dp);
                 check_pred(&t, &p, &rows, &info, &ixs, &names, &mut st, sink, "e2e").await;
             }
         }
